@@ -49,53 +49,60 @@ section Path
 variable {O F : Type}
 variable (proj : K → K') (f : K → V) (unpackDeb : O → Bool)
 variable (checkRegular : O → F → Prog K V) (checkDeb : O → F → Option (Prog K V))
+variable (colourOf : Bool → Bool → Bool) (render : Bool → String → String)
 
 /-- the invariant of reachable global states: environment patched, caches consistent -/
-def Inv (g : G K' V) : Prop := g.patched = true ∧ Consistent proj f g.cache
+def Inv (t : Bool) (g : G K' V) : Prop := g.patched = true ∧ Consistent proj f g.cache ∧ g.terminal = t
+
+/-- the colour decision does not look at the redirect -/
+def IgnoresRedirect (colourOf : Bool → Bool → Bool) : Prop := ∀ t c, colourOf t c = colourOf t false
 
 /-- the output of a file in a process of its own (no cache at all) -/
-def out (o : O) (file : F) : List String := (checkFileProg unpackDeb checkRegular checkDeb o file).pure f
+def out (t : Bool) (o : O) (file : F) : List String :=
+  ((checkFileProg unpackDeb checkRegular checkDeb o file).pure f).map (render (colourOf t false))
 
 variable {proj f}
 
-theorem step_inv (hkey : KeyDetermines proj f) (o : O) (g : G K' V) (file : F) (hg : Inv proj f g) :
-    (step proj f unpackDeb checkRegular checkDeb o g file).2 = .ok (out f unpackDeb checkRegular checkDeb o file)
-    ∧ Inv proj f (step proj f unpackDeb checkRegular checkDeb o g file).1 := by
-  obtain ⟨hp, hc⟩ := hg
+theorem step_inv (hkey : KeyDetermines proj f) (hcol : IgnoresRedirect colourOf) (o : O) (g : G K' V) (file : F) (hg : Inv proj f t g) :
+    (step proj f unpackDeb checkRegular checkDeb colourOf render o g file).2 = .ok (out f unpackDeb checkRegular checkDeb colourOf render t o file)
+    ∧ Inv proj f t (step proj f unpackDeb checkRegular checkDeb colourOf render o g file).1 := by
+  obtain ⟨hp, hc, ht⟩ := hg
   have h := run_consistent hkey (checkFileProg unpackDeb checkRegular checkDeb o file) g.cache hc
   simp only [step, hp, if_true]
-  exact ⟨by rw [h.1]; rfl, rfl, h.2⟩
+  refine ⟨?_, rfl, h.2, ht⟩
+  rw [h.1, ht, hcol t g.captured]
+  rfl
 
 /-- `check_file_s` = `check_file` as far as output and invariant go, and it leaves `sys.stdout` as it found it — also when
     `check_file` raised -/
-theorem checkFileS_inv (hkey : KeyDetermines proj f) (o : O) (g : G K' V) (file : F) (hg : Inv proj f g) :
-    (checkFileS proj f unpackDeb checkRegular checkDeb o g file).2 = .ok (out f unpackDeb checkRegular checkDeb o file)
-    ∧ Inv proj f (checkFileS proj f unpackDeb checkRegular checkDeb o g file).1 := by
-  have hg1 : Inv proj f ({ g with captured := true } : G K' V) := hg
-  have hs := step_inv unpackDeb checkRegular checkDeb hkey o _ file hg1
+theorem checkFileS_inv (hkey : KeyDetermines proj f) (hcol : IgnoresRedirect colourOf) (o : O) (g : G K' V) (file : F) (hg : Inv proj f t g) :
+    (checkFileS proj f unpackDeb checkRegular checkDeb colourOf render o g file).2 = .ok (out f unpackDeb checkRegular checkDeb colourOf render t o file)
+    ∧ Inv proj f t (checkFileS proj f unpackDeb checkRegular checkDeb colourOf render o g file).1 := by
+  have hg1 : Inv proj f t ({ g with captured := true } : G K' V) := hg
+  have hs := step_inv unpackDeb checkRegular checkDeb colourOf render hkey hcol o _ file hg1
   exact ⟨hs.1, hs.2⟩
 
 theorem checkFileS_restores_stdout (o : O) (g : G K' V) (file : F) :
-    (checkFileS proj f unpackDeb checkRegular checkDeb o g file).1.captured = g.captured := rfl
+    (checkFileS proj f unpackDeb checkRegular checkDeb colourOf render o g file).1.captured = g.captured := rfl
 
-theorem seqRun_inv (hkey : KeyDetermines proj f) (o : O) :
-    ∀ (files : List F) (g : G K' V), Inv proj f g →
-      (seqRun proj f unpackDeb checkRegular checkDeb o g files).2
-        = .ok ((files.map (out f unpackDeb checkRegular checkDeb o)).flatten)
-      ∧ Inv proj f (seqRun proj f unpackDeb checkRegular checkDeb o g files).1 := by
+theorem seqRun_inv (hkey : KeyDetermines proj f) (hcol : IgnoresRedirect colourOf) (o : O) :
+    ∀ (files : List F) (g : G K' V), Inv proj f t g →
+      (seqRun proj f unpackDeb checkRegular checkDeb colourOf render o g files).2
+        = .ok ((files.map (out f unpackDeb checkRegular checkDeb colourOf render t o)).flatten)
+      ∧ Inv proj f t (seqRun proj f unpackDeb checkRegular checkDeb colourOf render o g files).1 := by
   intro files
   induction files with
   | nil => intro g hg; exact ⟨rfl, hg⟩
   | cons file rest ih =>
     intro g hg
-    have hs := step_inv unpackDeb checkRegular checkDeb hkey o g file hg
-    rcases hstep : step proj f unpackDeb checkRegular checkDeb o g file with ⟨g1, r1⟩
+    have hs := step_inv unpackDeb checkRegular checkDeb colourOf render hkey hcol o g file hg
+    rcases hstep : step proj f unpackDeb checkRegular checkDeb colourOf render o g file with ⟨g1, r1⟩
     rw [hstep] at hs
     simp only at hs
     obtain ⟨hr, hg1⟩ := hs
     subst hr
     have ih1 := ih g1 hg1
-    rcases hrest : seqRun proj f unpackDeb checkRegular checkDeb o g1 rest with ⟨g2, r2⟩
+    rcases hrest : seqRun proj f unpackDeb checkRegular checkDeb colourOf render o g1 rest with ⟨g2, r2⟩
     rw [hrest] at ih1
     simp only at ih1
     obtain ⟨hr2, hg2⟩ := ih1
@@ -103,8 +110,8 @@ theorem seqRun_inv (hkey : KeyDetermines proj f) (o : O) :
     simp only [seqRun, hstep, hrest, List.map_cons, List.flatten_cons]
     exact ⟨trivial, hg2⟩
 
-theorem setWorker_inv (W : Nat → G K' V) (w : Nat) (g : G K' V) (hW : ∀ n, Inv proj f (W n)) (hg : Inv proj f g) :
-    ∀ n, Inv proj f (setWorker W w g n) := by
+theorem setWorker_inv (W : Nat → G K' V) (w : Nat) (g : G K' V) (hW : ∀ n, Inv proj f t (W n)) (hg : Inv proj f t g) :
+    ∀ n, Inv proj f t (setWorker W w g n) := by
   intro n
   unfold setWorker
   split
@@ -112,11 +119,11 @@ theorem setWorker_inv (W : Nat → G K' V) (w : Nat) (g : G K' V) (hW : ∀ n, I
   · exact hW n
 
 /-- whatever worker a task lands on and whatever that worker did before, the task's captured output is the file's own -/
-theorem parExec_find (hkey : KeyDetermines proj f) (o : O) (paths : List F) :
-    ∀ (sched : List (Nat × Nat)) (W : Nat → G K' V), (∀ n, Inv proj f (W n)) →
+theorem parExec_find (hkey : KeyDetermines proj f) (hcol : IgnoresRedirect colourOf) (o : O) (paths : List F) :
+    ∀ (sched : List (Nat × Nat)) (W : Nat → G K' V), (∀ n, Inv proj f t (W n)) →
       ∀ (i : Nat) (p : F), paths[i]? = some p → i ∈ sched.map (·.1) →
-        ((parExec proj f unpackDeb checkRegular checkDeb o paths sched W).find? (fun q => q.1 == i)).map (·.2)
-          = some (.ok (out f unpackDeb checkRegular checkDeb o p)) := by
+        ((parExec proj f unpackDeb checkRegular checkDeb colourOf render o paths sched W).find? (fun q => q.1 == i)).map (·.2)
+          = some (.ok (out f unpackDeb checkRegular checkDeb colourOf render t o p)) := by
   intro sched
   induction sched with
   | nil => intro W _ i p _ h; simp at h
@@ -137,7 +144,7 @@ theorem parExec_find (hkey : KeyDetermines proj f) (o : O) (paths : List F) :
       exact ih W hW i p hp hi'
     | some q =>
       simp only
-      have hs := checkFileS_inv unpackDeb checkRegular checkDeb hkey o (W w) q (hW w)
+      have hs := checkFileS_inv unpackDeb checkRegular checkDeb colourOf render hkey hcol o (W w) q (hW w)
       by_cases hji : j = i
       · subst hji
         rw [hp] at hj; cases hj
